@@ -271,7 +271,9 @@ def BVV(value, size=None, **kwargs) -> BV:
             pass
 
     result = BV("BVV", (value, size), length=size, **kwargs)
-    _bvv_cache[(value, size)] = result
+    if not kwargs:
+        # only the plain constant may serve later BVV(value, size) calls (with kwargs it may carry annotations)
+        _bvv_cache[(value, size)] = result
     return result
 
 
